@@ -159,12 +159,50 @@ VS_ARGS = {'weighted': g_weighted}
 VV = {'square': h_square, 'pair': h_pair, 'resid': h_resid, 'matrix': h_matrix,
       'hscalar': h_scalar}
 
+# functions with a removable singularity / a pole at 0 (Limit, Residue); numpy warnings of the 0/0
+# evaluation are the library's business (Limit.__call__ runs it under np.errstate)
+def l_sinc(x):
+    return np.sin(x) / x
+
+
+def l_cosq(x):
+    return (np.cos(x) - 1.0) / x
+
+
+def l_expq(x):
+    return (x * np.exp(x) - np.expm1(x)) / x ** 2
+
+
+def l_xsin3(x):
+    return (x - np.sin(x)) / x ** 3
+
+
+def l_bern(x):
+    return -x / np.expm1(2 * x)
+
+
+def l_pole1(x):
+    return -1.0 / np.expm1(2 * x)
+
+
+def l_pole2(x):
+    return 1.0 / np.sin(x) ** 2
+
+
+def l_pole_mixed(x):
+    return np.exp(x) / x + np.cos(x)
+
+
+LIMS = {'sinc': l_sinc, 'cosq': l_cosq, 'expq': l_expq, 'xsin3': l_xsin3, 'bern': l_bern}
+POLES = {'pole1': l_pole1, 'pole2': l_pole2, 'pole_mixed': l_pole_mixed}
+
+
 def p_vsum(r):
     return np.sum(r, axis=0)
 
 
 ALL = {'vsum': p_vsum}
-for _d in (SS, SS_ARGS, VS, VS_ARGS, VV):
+for _d in (SS, SS_ARGS, VS, VS_ARGS, VV, LIMS, POLES):
     ALL.update(_d)
 
 # default (args, kwds) for functions that need them; plans may override
